@@ -112,7 +112,15 @@ class _MathShim:
         return self._mono("log2", x, True, False, True) if is_sym(x) else _math.log2(x)
 
     def exp(self, x):
-        return self._mono("exp", x, True, True) if is_sym(x) else _math.exp(x)
+        if not is_sym(x):
+            return _math.exp(x)
+        r = self._mono("exp", x, True, True)
+        c = _c()
+        if "mathax_exp_at_0" not in c.names:      # one more trusted fact (additive): exp(0) == 1
+            c.names["mathax_exp_at_0"] = 1
+            USED.add("math.exp: exp(0) == 1")
+            c.assume(_uf("math_exp", z3.RealSort(), z3.RealSort())(z3.RealVal(0)) == 1)
+        return r
 
     def erfc(self, x):
         return self._mono("erfc", x, False, True) if is_sym(x) else _math.erfc(x)
